@@ -9,6 +9,7 @@ import (
 	"fmt"
 	"math/rand/v2"
 	"os"
+	"regexp"
 	"runtime"
 	"runtime/debug"
 	"runtime/metrics"
@@ -42,64 +43,134 @@ const (
 )
 
 // ---------------------------------------------------------------------------
-// case list layout
+// case list layout: a fixed sequence of blocks per tier; block k of size n
+// owns the next n case indices.
 
-type layout struct {
-	nT, nP                        int
-	a0, a1, a2, a3, aN, fmt0, rd0 int // block starts
-	n2, n3, nN, nFmt, nRd         int
-	total                         int
-	tier                          string
+type block struct {
+	name   string
+	n      int
+	seeded bool // cases depend on VERIF_SEED
+	gen    func(r *rand.Rand, k int) Case
 }
 
-var layouts = map[string]*layout{}
+var layouts = map[string][]block{}
 
-func getLayout(tier string) *layout {
+func total(bs []block) (n int) {
+	for _, b := range bs {
+		n += b.n
+	}
+	return
+}
+
+// sampled turns an exhaustive block into a seeded sample of m of its cases.
+func sampled(b block, m int) block {
+	full := b.n
+	if full == 0 {
+		m = 0
+	}
+	return block{name: b.name + "-sample", n: m, seeded: true, gen: func(r *rand.Rand, _ int) Case { return b.gen(r, r.IntN(full)) }}
+}
+
+func getLayout(tier string) []block {
 	if l := layouts[tier]; l != nil {
 		return l
 	}
 	loadTargets()
-	l := &layout{nT: len(targets), nP: len(pool), tier: tier}
-	l.a0 = 0
-	l.a1 = l.a0 + l.nT
-	l.a2 = l.a1 + l.nT*l.nP
-	if tier == "thorough" {
-		l.n2 = l.nT * l.nP * l.nP
-		l.n3 = len(targets3()) * len(smallPool) * len(smallPool) * len(smallPool)
-		l.nN = 300000
-		l.nFmt = fmtDetN() + 200000
-		l.nRd = rdDetN() + 200000
-	} else {
-		l.n2 = 60000
-		l.n3 = 10000
-		l.nN = 20000
-		l.nFmt = fmtDetN() + 5000
-		l.nRd = rdDetN() + 10000
+	nT, P, Q, S := len(targets), len(pool), len(quickPool), len(smallPool)
+	fn0 := block{name: "fn0", n: nT, gen: func(_ *rand.Rand, k int) Case { return mkFn(&targets[k]) }}
+	fn1 := block{name: "fn1", n: nT * P, gen: func(_ *rand.Rand, k int) Case { return mkFn(&targets[k/P], pool[k%P].Name) }}
+	fn2 := block{name: "fn2", n: nT * P * P, gen: func(_ *rand.Rand, k int) Case {
+		return mkFn(&targets[k/(P*P)], pool[(k/P)%P].Name, pool[k%P].Name)
+	}}
+	fn2q := block{name: "fn2-quickpool", n: nT * Q * Q, gen: func(_ *rand.Rand, k int) Case {
+		return mkFn(&targets[k/(Q*Q)], quickPool[(k/Q)%Q], quickPool[k%Q])
+	}}
+	t3 := targets3()
+	fn3 := block{name: "fn3-smallpool", n: len(t3) * S * S * S, gen: func(_ *rand.Rand, k int) Case {
+		return mkFn(&targets[t3[k/(S*S*S)]], smallPool[(k/(S*S))%S], smallPool[(k/S)%S], smallPool[k%S])
+	}}
+	kw := kwCases()
+	fnkw := block{name: "fn-keywords", n: len(kw) * P, gen: func(_ *rand.Rand, k int) Case {
+		kc := kw[k/P]
+		args := append(append([]string{}, kc.req...), ":"+kc.key, pool[k%P].Name)
+		return mkFn(&targets[kc.t], args...)
+	}}
+	fnN := func(n int) block {
+		return block{name: "fn-seeded-tuples", n: n, seeded: true, gen: func(r *rand.Rand, _ int) Case { return genN(r) }}
 	}
-	l.a3 = l.a2 + l.n2
-	l.aN = l.a3 + l.n3
-	l.fmt0 = l.aN + l.nN
-	l.rd0 = l.fmt0 + l.nFmt
-	l.total = l.rd0 + l.nRd
+	fmtDet := block{name: "fmt-det", n: fmtDetN(), gen: func(r *rand.Rand, k int) Case { return genFmt(r, k) }}
+	fmtSeed := func(n int) block {
+		return block{name: "fmt-seeded", n: n, seeded: true, gen: func(r *rand.Rand, _ int) Case { return genFmt(r, fmtDetN()) }}
+	}
+	rdDet := block{name: "rd-det", n: rdDetN(), gen: func(r *rand.Rand, k int) Case { return genRd(r, k) }}
+	rdSeed := func(n int) block {
+		return block{name: "rd-seeded", n: n, seeded: true, gen: func(r *rand.Rand, _ int) Case { return genRd(r, rdDetN()) }}
+	}
+	var l []block
+	switch tier {
+	case "thorough":
+		l = []block{fn0, fn1, fn2, fn3, fnkw, fnN(200000), fmtDet, fmtSeed(200000), rdDet, rdSeed(200000)}
+	case "seeded": // development aid: the seeded blocks of the thorough tier only
+		l = []block{fnN(200000), fmtSeed(200000), rdSeed(200000)}
+	default:
+		l = []block{fn0, fn1, fn2q, sampled(fn2, 30000), sampled(fn3, 15000), sampled(fnkw, 10000), fnN(15000),
+			fmtDet, fmtSeed(5000), rdDet, rdSeed(10000)}
+	}
 	layouts[tier] = l
 	return l
 }
 
 var t3cache []int
 
-// targets3: targets whose documented lambda list has at least 3 required
-// arguments; no 0-, 1- or 2-tuple gets past their arity guard.
+// targets3: targets that accept three or more arguments according to their
+// documented lambda list (&rest, &body, &key, or >= 3 required+optional).
 func targets3() []int {
 	if t3cache == nil {
 		loadTargets()
 		t3cache = []int{}
 		for i, t := range targets {
-			if 3 <= t.minReq {
+			if t.maxArgs < 0 || 3 <= t.maxArgs {
 				t3cache = append(t3cache, i)
 			}
 		}
 	}
 	return t3cache
+}
+
+type kwCase struct {
+	t   int
+	req []string
+	key string
+}
+
+var kwCache []kwCase
+
+// reqTuples: plausible required arguments in front of a keyword pair.
+var reqTuples = [][][]string{
+	{{}},
+	{{"list3"}, {"str"}, {"vector"}, {"nil"}, {"sym"}},
+	{{"sym", "list3"}, {"zero", "list3"}, {"list3", "list3"}, {"str", "str"}, {"char", "str"}, {"lambda", "list3"}, {"three", "vector"}},
+	{{"sym", "sym", "list3"}, {"zero", "one", "list3"}, {"str", "str", "str"}, {"lambda", "list3", "list3"}},
+}
+
+// kwCases: every documented &key of every function behind each plausible
+// required-argument tuple; the keyword's value then walks the whole pool.
+func kwCases() []kwCase {
+	if kwCache == nil {
+		loadTargets()
+		kwCache = []kwCase{}
+		for i, t := range targets {
+			if len(t.keys) == 0 || len(reqTuples) <= t.minReq {
+				continue
+			}
+			for _, req := range reqTuples[t.minReq] {
+				for _, k := range t.keys {
+					kwCache = append(kwCache, kwCase{t: i, req: req, key: k})
+				}
+			}
+		}
+	}
+	return kwCache
 }
 
 func mkFn(t *target, args ...string) Case {
@@ -109,41 +180,30 @@ func mkFn(t *target, args ...string) Case {
 	return Case{K: "fn", Fn: t.Fn, Raw: t.Raw, Args: args}
 }
 
+// devOnly: C09_ONLY=fn|fmt|rd is a development aid that turns the cases of
+// the other workloads into skips; registered commands never set it.
+var devOnly = os.Getenv("C09_ONLY")
+
 func gen(r *rand.Rand, i int, tier string) Case {
-	l := getLayout(tier)
-	P := l.nP
-	switch {
-	case i < l.a1:
-		return mkFn(&targets[i])
-	case i < l.a2:
-		k := i - l.a1
-		return mkFn(&targets[k/P], pool[k%P].Name)
-	case i < l.a3:
-		k := i - l.a2
-		if tier != "thorough" {
-			k = r.IntN(l.nT * P * P)
+	c := Case{K: "skip", Why: "out-of-range"}
+	for _, b := range getLayout(tier) {
+		if i < b.n {
+			c = b.gen(r, i)
+			break
 		}
-		return mkFn(&targets[k/(P*P)], pool[(k/P)%P].Name, pool[k%P].Name)
-	case i < l.aN:
-		k := i - l.a3
-		t3 := targets3()
-		S := len(smallPool)
-		if tier != "thorough" {
-			k = r.IntN(len(t3) * S * S * S)
-		}
-		return mkFn(&targets[t3[k/(S*S*S)]], smallPool[(k/(S*S))%S], smallPool[(k/S)%S], smallPool[k%S])
-	case i < l.fmt0:
-		return genN(r, l)
-	case i < l.rd0:
-		return genFmt(r, i-l.fmt0)
+		i -= b.n
 	}
-	return genRd(r, i-l.rd0)
+	if devOnly != "" && c.K != devOnly && c.K != "skip" {
+		return Case{K: "skip", Why: "dev-filter"}
+	}
+	return c
 }
 
 // genN: seeded tuples of 3..5 pool objects, and keyword-argument calls built
 // from the documented &key names.
-func genN(r *rand.Rand, l *layout) Case {
-	t := &targets[r.IntN(l.nT)]
+func genN(r *rand.Rand) Case {
+	nP := len(pool)
+	t := &targets[r.IntN(len(targets))]
 	var args []string
 	if 0 < len(t.keys) && r.IntN(2) == 0 {
 		n := t.minReq
@@ -151,16 +211,16 @@ func genN(r *rand.Rand, l *layout) Case {
 			n = 1
 		}
 		for k := 0; k < n; k++ {
-			args = append(args, pool[r.IntN(l.nP)].Name)
+			args = append(args, pool[r.IntN(nP)].Name)
 		}
 		for k := 1 + r.IntN(2); 0 < k; k-- {
-			args = append(args, ":"+fw.Pick(r, t.keys), pool[r.IntN(l.nP)].Name)
+			args = append(args, ":"+fw.Pick(r, t.keys), pool[r.IntN(nP)].Name)
 		}
 		return mkFn(t, args...)
 	}
-	n := 3 + r.IntN(3)
+	n := 4 + r.IntN(2)
 	for k := 0; k < n; k++ {
-		args = append(args, pool[r.IntN(l.nP)].Name)
+		args = append(args, pool[r.IntN(nP)].Name)
 	}
 	return mkFn(t, args...)
 }
@@ -174,8 +234,9 @@ var (
 	envSnapshot  []string
 	allocSample  = []metrics.Sample{{Name: "/gc/heap/allocs:bytes"}}
 	steps        int
-	helperFns    = map[string]*slip.FuncInfo{}
+	helperFn     *slip.FuncInfo
 	stderrIsFile bool
+	exported     []*slip.FuncInfo // every FuncInfo that was exported at start
 )
 
 type boundedSink struct{ n int }
@@ -191,16 +252,24 @@ func workerInit() {
 	loadTargets()
 	// A call that tries to allocate without bound must die quickly and must
 	// not take the machine with it: cap the address space and the stack.
-	lim := syscall.Rlimit{Cur: 6 << 30, Max: 6 << 30}
+	lim := syscall.Rlimit{Cur: 3 << 30, Max: 3 << 30}
 	_ = syscall.Setrlimit(syscall.RLIMIT_AS, &lim)
 	debug.SetMaxStack(256 << 20)
-	debug.SetGCPercent(100)
 	if fi, err := os.Stderr.Stat(); err == nil && fi.Mode().IsRegular() && os.Getenv("VERIF_WORKDIR") != "" {
 		stderrIsFile = true
 	}
 	envSnapshot = os.Environ()
+	for _, p := range slip.AllPackages() {
+		p.EachFuncInfo(func(fi *slip.FuncInfo) {
+			if fi.Export {
+				exported = append(exported, fi)
+			}
+		})
+	}
 	resetStreams()
-	setupWorld()
+	if msg := setupWorld(); msg != "" {
+		panic(msg)
+	}
 	runtime.GC()
 	time.Sleep(10 * time.Millisecond)
 	baseGo = runtime.NumGoroutine()
@@ -214,15 +283,34 @@ func resetStreams() {
 	slip.Interactive = false
 }
 
-func setupWorld() {
+// setupWorld (re-)creates the helpers the pool refers to. Returns "" or what failed.
+func setupWorld() (failed string) {
 	slip.CurrentPackage = &slip.UserPkg
+	slip.UserPkg.Locked = false
+	for _, fi := range exported {
+		fi.Export = true // (unexport '(lambda (x) x)) in cl-user clears the flag of the shared FuncInfo
+	}
 	scope := slip.NewScope()
-	for _, f := range setupForms {
-		if _, err := sl.Eval(scope, f); err != nil {
-			panic(fmt.Sprintf("c09 setup form %s failed: %s", f, err))
+	try := func(src string) {
+		if _, err := sl.Eval(scope, src); err != nil && failed == "" {
+			failed = fmt.Sprintf("c09 setup form %s failed: %s", src, err)
 		}
 	}
-	helperFns["c09-fn"] = slip.FindFunc("c09-fn")
+	_ = sl.Catch(func() { slip.UserPkg.Remove("c09-var") }) // also drops a constant binding
+	try("(defun c09-fn (&rest args) args)")
+	try("(defvar c09-var 7)")
+	try("(setq c09-var 7)")
+	if _, err := sl.Eval(scope, "(make-instance 'c09-class)"); err != nil {
+		try("(defclass c09-class () ((a :initarg :a :initform 1)))")
+	}
+	if _, err := sl.Eval(scope, "(make-instance 'c09-flavor)"); err != nil {
+		try("(defflavor c09-flavor ((a 1)) () :gettable-instance-variables :settable-instance-variables)")
+	}
+	if _, err := sl.Eval(scope, "(make-c09-struct :a 1)"); err != nil {
+		try("(defstruct c09-struct a b)")
+	}
+	helperFn = slip.FindFunc("c09-fn")
+	return
 }
 
 // markContext makes a worker death attributable by signature, not only by
@@ -284,51 +372,87 @@ func afterCase(x *fw.Ctx, c *Case) {
 		}
 		slip.UserPkg.Undefine("foo")
 		slip.UserPkg.Remove("foo")
-		if slip.UserPkg.Locked {
-			slip.UserPkg.Locked = false
-		}
 	})
 }
 
+const canarySrc = "(list (+ 1 2) (c09-fn 4) c09-var (car '(5)) ((lambda (x) x) 6) (slot-value (make-instance 'c09-class) 'a) (send (make-instance 'c09-flavor) :a) (c09-struct-a (make-c09-struct :a 1)))"
+const canaryWant = "(3 (4) 7 5 6 1 1 1)"
+
 // canary: the interpreter still works after the case.
 func canary(x *fw.Ctx, what string) {
-	ok := false
 	scope := slip.NewScope()
-	res, err := sl.Eval(scope, "(list (+ 1 2) (c09-fn 4) c09-var (car '(5)) (find-class 'c09-class) (find-flavor 'c09-flavor) (make-c09-struct))")
-	if err == nil {
-		if l, _ := res.(slip.List); len(l) == 7 && sl.Show(l[0]) == "3" && sl.Show(l[1]) == "(4)" && sl.Show(l[2]) == "7" && sl.Show(l[3]) == "5" {
-			ok = true
-		}
-	}
-	if ok && slip.FindFunc("c09-fn") == helperFns["c09-fn"] {
+	res, err := sl.Eval(scope, canarySrc)
+	if err == nil && sl.Show(res) == canaryWant && slip.FindFunc("c09-fn") == helperFn {
 		return
 	}
-	// a helper was redefined or removed through one of the pool's own
-	// symbols (defun c09-fn ..., (makunbound 'c09-var), ...): by design.
-	// Restore and look again.
+	// A helper was redefined or removed through one of the pool's own symbols
+	// ((defun c09-fn ...), (makunbound 'c09-var), (unexport '(lambda (x) x))
+	// ...): that is what those functions are for. Restore and look again.
 	x.Cover("world-restored")
-	if e := sl.Catch(setupWorld); e == nil {
-		res, err = sl.Eval(scope, "(list (+ 1 2) (c09-fn 4) c09-var (car '(5)))")
-		if err == nil && sl.Show(res) == "(3 (4) 7 5)" {
+	msg := setupWorld()
+	if msg == "" {
+		res, err = sl.Eval(scope, canarySrc)
+		if err == nil && sl.Show(res) == canaryWant {
 			return
 		}
 	}
-	x.Fail("canary-after "+what, "after %s the interpreter no longer evaluates the canary forms: result %s, error %s", what, sl.Show(res), err)
+	// The interpreter of this worker is damaged beyond the by-design effects:
+	// nothing it says about later cases would mean anything. The worker ends
+	// here, inside the case, so the framework attributes the death to this
+	// case, reports it under the signature written by markContext, and
+	// starts a fresh worker for the rest of the batch.
+	markContext("world broken after " + what)
+	fmt.Fprintf(os.Stderr, "after %s the interpreter no longer evaluates the canary %s:\n result %s\n error %s\n restore: %s\n", what, canarySrc, sl.Show(res), err, msg)
+	os.Exit(3)
 }
 
 // ---------------------------------------------------------------------------
 // judging
 
-// faultKind normalises the text of a Go runtime fault.
+var digitRun = regexp.MustCompile(`[0-9]+`)
+
+// faultKind normalises the text of a Go runtime fault: the kind plus the
+// detail that separates root causes (which side of the bounds, which Go
+// types), with numbers other than the sign dropped.
 func faultKind(msg string) string {
+	if i := strings.Index(msg, "index out of range ["); 0 <= i {
+		rest := msg[i+len("index out of range ["):]
+		switch {
+		case strings.HasPrefix(rest, "-"):
+			return "index[neg]"
+		case strings.Contains(rest, "with length 0"):
+			return "index[len0]"
+		}
+		return "index[>=len]"
+	}
+	if i := strings.Index(msg, "slice bounds out of range "); 0 <= i {
+		rest := msg[i+len("slice bounds out of range "):]
+		if j := strings.IndexByte(rest, ']'); 0 < j {
+			rest = rest[:j+1]
+		}
+		return "slice-bounds" + digitRun.ReplaceAllString(rest, "N")
+	}
+	if i := strings.Index(msg, "interface conversion: "); 0 <= i {
+		rest := msg[i+len("interface conversion: "):]
+		if j := strings.Index(rest, ": missing method"); 0 < j {
+			rest = rest[:j]
+		}
+		// "slip.Object is slip.Fixnum, not slip.Character": the type found is
+		// the argument's, the type wanted names the unchecked assertion
+		if j := strings.LastIndex(rest, ", not "); 0 <= j {
+			rest = rest[j+2:]
+		}
+		rest = strings.ReplaceAll(rest, "github.com/ohler55/slip/", "")
+		rest = strings.ReplaceAll(rest, "interface {}", "any")
+		return "type-assertion[" + strings.ReplaceAll(strings.TrimSpace(rest), " ", "_") + "]"
+	}
 	for _, p := range [][2]string{
-		{"index out of range", "index"},
-		{"slice bounds out of range", "slice-bounds"},
 		{"nil pointer dereference", "nil-deref"},
 		{"invalid memory address", "nil-deref"},
-		{"interface conversion", "type-assertion"},
 		{"hash of unhashable", "unhashable"},
 		{"integer divide by zero", "int-div-zero"},
+		{"makeslice: len", "makeslice-len"},
+		{"makeslice: cap", "makeslice-cap"},
 		{"makeslice", "makeslice"},
 		{"negative shift amount", "neg-shift"},
 		{"assignment to entry in nil map", "nil-map"},
@@ -345,7 +469,7 @@ func faultKind(msg string) string {
 }
 
 type outcome struct {
-	kind  string // value | condition | fault | budget | undocumented
+	kind  string // value | condition | fault | raw-panic | budget | undocumented
 	fault string
 	err   *sl.Err
 }
@@ -356,10 +480,14 @@ func classify(err *sl.Err) outcome {
 		return outcome{kind: "value"}
 	case strings.Contains(err.Msg, budgetMsg):
 		return outcome{kind: "budget", err: err}
-	case err.Internal:
-		return outcome{kind: "fault", fault: faultKind(err.Msg), err: err}
 	case err.Partial:
 		return outcome{kind: "condition", err: err}
+	case err.Class == "go-runtime-error" || sl.LooksInternal(err.Msg):
+		return outcome{kind: "fault", fault: faultKind(err.Msg), err: err}
+	case err.Internal:
+		// a bare Go panic value (string, error) reached the caller: not a
+		// runtime fault, but not a Lisp condition either
+		return outcome{kind: "raw-panic", err: err}
 	case !err.IsA("condition"):
 		return outcome{kind: "undocumented", err: err}
 	}
@@ -381,20 +509,20 @@ func classesOf(args []string) string {
 	return "(" + strings.Join(cs, ",") + ")"
 }
 
-// fnSig: calls with up to two arguments are enumerated exhaustively (the
-// thorough tier walks all of them, the quick tier a sample), so their
-// signature can afford the argument class tuple; longer, seeded tuples are
-// identified by function and fault only.
+// fnSig names the failing construct: what went wrong (fault kind with its
+// detail) in which function and calling mode. The argument tuple is in the
+// message and the witness, not in the signature: one missing guard shows up
+// for dozens of argument tuples.
 func fnSig(c *Case, what string) string {
-	mode := ""
 	if c.Raw {
-		mode = " raw"
+		return sigName(what + " fn=" + c.Fn + " raw")
 	}
-	if len(c.Args) <= 2 {
-		return fmt.Sprintf("%s fn=%s%s args=%s", what, c.Fn, mode, classesOf(c.Args))
-	}
-	return fmt.Sprintf("%s fn=%s%s args=3+", what, c.Fn, mode)
+	return sigName(what + " fn=" + c.Fn)
 }
+
+// sigName: '*' is the wildcard of known_findings.json signatures, so it is
+// spelled out in names (do* -> do<star>).
+func sigName(s string) string { return strings.ReplaceAll(s, "*", "<star>") }
 
 func renderCall(c *Case) string {
 	var b strings.Builder
@@ -402,21 +530,36 @@ func renderCall(c *Case) string {
 	for _, a := range c.Args {
 		b.WriteByte(' ')
 		if po := poolIndex[a]; po != nil {
-			src := po.Src
-			if c.Raw {
-				src = strings.TrimPrefix(src, "'") + "{raw where unevaluated}"
-			}
-			b.WriteString(src)
+			b.WriteString(po.Src)
 		} else {
 			b.WriteString(a)
 		}
 	}
 	b.WriteString(")")
+	if c.Raw {
+		b.WriteString(" [raw: at unevaluated positions the object itself, unquoted]")
+	}
 	return b.String()
 }
 
+// buildArg evaluates a pool expression in scope.
+func buildArg(scope *slip.Scope, po *poolObj) (slip.Object, string) {
+	if po.Form {
+		return slip.ReadString(po.Src, scope)[0], ""
+	}
+	obj, err := sl.Eval(scope, po.Src)
+	if err != nil {
+		// a previous case damaged a helper: restore and retry once
+		setupWorld()
+		if obj, err = sl.Eval(scope, po.Src); err != nil {
+			return nil, fmt.Sprintf("pool object %s = %s cannot be built: %s", po.Name, po.Src, err)
+		}
+	}
+	return obj, ""
+}
+
 func execFn(x *fw.Ctx, c *Case) {
-	pkgName, name, _ := strings.Cut(c.Fn, ":")
+	pkgName, _, _ := strings.Cut(c.Fn, ":")
 	x.Cover("pkg:" + pkgName)
 	x.Cover(fmt.Sprintf("arity:%d", min(len(c.Args), 6)))
 	if c.Raw {
@@ -434,6 +577,7 @@ func execFn(x *fw.Ctx, c *Case) {
 	}
 	form := make(slip.List, 0, len(c.Args)+1)
 	form = append(form, slip.Symbol(c.Fn))
+	emptyValues := false // (values) at an evaluated position
 	for i, a := range c.Args {
 		if strings.HasPrefix(a, ":") {
 			form = append(form, slip.Symbol(a))
@@ -444,33 +588,33 @@ func execFn(x *fw.Ctx, c *Case) {
 			x.Fail("harness-pool", "unknown pool object %s", a)
 			return
 		}
-		if po.Form {
-			code := slip.ReadString(po.Src, scope)
-			form = append(form, code[0])
-			continue
+		obj, herr := buildArg(scope, po)
+		if herr != "" {
+			x.Fail("harness-pool", "%s", herr)
+			return
 		}
-		obj, err := sl.Eval(scope, po.Src)
-		if err != nil {
-			// a previous case damaged a helper: restore and retry once
-			_ = sl.Catch(setupWorld)
-			if obj, err = sl.Eval(scope, po.Src); err != nil {
-				x.Fail("harness-pool", "pool object %s = %s cannot be built: %s", a, po.Src, err)
-				return
-			}
-		}
-		if se != nil && se.SkipArgEval(i) {
+		raw := se != nil && se.SkipArgEval(i)
+		switch {
+		case po.Form:
 			form = append(form, obj)
-		} else {
+			if po.Name == "values0" && !raw {
+				emptyValues = true
+			}
+		case raw:
+			form = append(form, obj)
+		default:
 			form = append(form, slip.List{slip.Symbol("quote"), obj})
 		}
 	}
 	steps = 0
-	ctx := fmt.Sprintf("fn=%s args=%s", c.Fn, classesOf(c.Args))
+	ctx := "fn=" + sigName(c.Fn)
 	if c.Raw {
-		ctx = fmt.Sprintf("fn=%s raw args=%s", c.Fn, classesOf(c.Args))
+		ctx += " raw"
 	}
-	if 3 <= len(c.Args) {
-		ctx = strings.Replace(fnSig(c, ""), " ", "", 1)
+	if len(c.Args) <= 2 {
+		ctx += " args=" + classesOf(c.Args)
+	} else {
+		ctx += " args=3+"
 	}
 	markContext(ctx)
 	a0 := allocBytes()
@@ -491,11 +635,25 @@ func execFn(x *fw.Ctx, c *Case) {
 		obs["condition"] = oc.err.Class
 	case "fault":
 		x.Cover("outcome:internal-fault")
+		if emptyValues && oc.fault == "index[len0]" {
+			// the evaluator itself (Function.Eval takes vs[0] of an argument's
+			// values) faults before the function is entered
+			x.Fail("fault=index[len0] evaluator arg=(values)", "%s => internal fault reported as %s: %s", renderCall(c), oc.err.Class, oc.err.Msg)
+			break
+		}
 		x.Fail(fnSig(c, "fault="+oc.fault), "%s => internal fault reported as %s: %s", renderCall(c), oc.err.Class, oc.err.Msg)
+	case "raw-panic":
+		x.Cover("outcome:raw-go-panic")
+		x.Fail(fnSig(c, "raw-go-panic"), "%s => a bare Go panic value (%s) instead of a condition: %s", renderCall(c), oc.err.GoType, oc.err.Msg)
 	case "budget":
 		x.Cover("outcome:over-step-budget")
 		x.Fail(fnSig(c, "over-budget"), "%s => more than %d evaluation steps", renderCall(c), stepBudget)
 	case "undocumented":
+		if c.Fn == "gi:panic" {
+			// documented dialect: (panic obj) raises obj itself, whatever it is
+			x.Cover("outcome:gi-panic-raises-object")
+			break
+		}
 		x.Cover("outcome:undocumented-class")
 		x.Fail(fnSig(c, "not-a-condition"), "%s => signalled something that is not a condition: chain %v: %s", renderCall(c), oc.err.Chain, oc.err.Msg)
 	}
@@ -503,13 +661,26 @@ func execFn(x *fw.Ctx, c *Case) {
 		x.Cover("outcome:over-alloc-budget")
 		x.Fail(fnSig(c, "alloc"), "%s => allocated %d MiB in one call", renderCall(c), used>>20)
 	}
-	_ = name
 	afterCase(x, c)
-	canary(x, "fn="+c.Fn)
+	canary(x, "fn="+sigName(c.Fn))
 }
 
+// devSlow: C09_SLOWLOG=<ms> (development aid) counts cases slower than the
+// threshold per function; never set by registered commands, never in a verdict.
+var devSlow, _ = strconv.Atoi(os.Getenv("C09_SLOWLOG"))
+
 func exec(x *fw.Ctx, c Case) {
+	if 0 < devSlow {
+		t0 := time.Now()
+		defer func() {
+			if d := time.Since(t0); time.Duration(devSlow)*time.Millisecond < d {
+				x.CoverN("slow-ms:"+c.K+":"+c.Fn+":"+c.Via, int(d.Milliseconds()))
+			}
+		}()
+	}
 	switch c.K {
+	case "": // the null witness of a finding that cannot be re-run (hangs)
+		x.Trivial()
 	case "skip":
 		x.Trivial()
 		x.Cover("avoided:" + c.Why)
@@ -537,14 +708,15 @@ func hangSecs() int {
 func init() {
 	fw.Register(fw.Spec[Case]{
 		ID: "C09",
-		Rule: "(1) every exported function of every package (run-time enumeration; documented denylist of functions whose purpose is an effect outside " +
-			"the process or blocking) in quoted-argument mode and, for special forms/macros, raw-form mode x every 0-, 1- and 2-tuple of a pool of " +
-			"58 representative objects (thorough: exhaustive; quick: all 0/1-tuples + seeded 2-tuples), exhaustive 3-tuples of a 14-object pool for " +
-			"functions with >=3 required arguments, seeded 3..5-tuples and documented-keyword calls; (2) format control strings: every directive x " +
-			"modifier x parameter shape x pool argument, then seeded compositions; (3) reader: every byte string of length <=3 over a 40-byte " +
-			"alphabet, all #-dispatch pairs, seeded mutations of a corpus, through 3 delivery paths. One call/read per case, fresh argument objects " +
-			"per case. distinct = distinct case; non-trivial = not an avoided (skip-table) construct",
-		N:                func(tier string) int { return getLayout(tier).total },
+		Rule: "(1) every exported function of every linked package (run-time enumeration; documented denylist of functions whose purpose is an effect outside " +
+			"the process or blocking) in quoted-argument mode and, for special forms/macros, additionally with the bare objects at unevaluated positions, x every 0-, 1- " +
+			"and 2-tuple of a pool of 58 fresh representative objects (thorough: exhaustive; quick: all 0/1-tuples, all pairs of a 16-object pool, a seeded sample of " +
+			"the rest), x every 3-tuple of a 14-object pool for functions that accept 3 arguments, x every documented &key with every pool value behind plausible " +
+			"required arguments, plus seeded 4..5-tuples and keyword combinations; (2) format control strings: every directive x modifier x parameter shape x pool " +
+			"argument, block/unbalanced templates, then seeded compositions; (3) reader: every byte string of length <=3 over a 40-byte alphabet, all #-dispatch " +
+			"pairs, 1 MiB / 10 000-deep stress texts, seeded mutations of a corpus, through 4 delivery paths. One call/read per case, argument objects built afresh " +
+			"for every case. distinct = distinct case; non-trivial = not an avoided construct (skip table / non-terminating by definition)",
+		N:                func(tier string) int { return total(getLayout(tier)) },
 		Gen:              gen,
 		Exec:             exec,
 		Init:             workerInit,
@@ -554,7 +726,7 @@ func init() {
 		Assumptions: []string{
 			"an internal fault is recognised hook-free: a recovered value that is not a slip condition, or a condition whose message carries a Go runtime fault text (sl.LooksInternal)",
 			"standard streams are rebound to in-memory streams; stdin readers therefore read a fixed string, not the process stdin",
-			"worker address space capped at 6 GiB and Go stack at 256 MiB so that unbounded allocation/recursion dies quickly (fatal error) instead of exhausting the machine",
+			"worker address space capped at 3 GiB and Go stack at 256 MiB so that unbounded allocation/recursion dies quickly (fatal error) instead of exhausting the machine",
 			"hang = no case completed for HangSecs (20 s) wall time; the calls are microsecond-scale, so machine load cannot produce one",
 			"constructs that hang or loop by definition are in the skip table (internal/c09/skiptable.go) and are not generated",
 		},
